@@ -18,16 +18,21 @@ CHECKS['C14'] = {
             'after sync() every cancelled/completed/held/re-queued/unknown container with a lingering process received KillContainer '
             '(unless an API call for it is still in flight). Non-trivial = some process exited without finalising, or a Lock call failed or '
             'was in flight across a runQueue, or a process existed on an instance the pool had not probed yet (dispatcher restart). '
-            'distinct = fingerprint of the action sequence with all drawn parameters.',
+            'distinct = fingerprint of the action sequence with all drawn parameters. '
+            '(b) rapid state machine over a real worker.Pool with model cloud/executor (non-trivial: a --detach returned and a process '
+            'exited or was killed); (c) PRNG-generated end-to-end scenarios over loopback SSH against test.StubDriver/test.Queue with '
+            'restarts (non-trivial: a container started more than once, a failed Lock call, or a restart with live crunch-run processes); '
+            'see notes/C14e2e.md.',
     'assumptions': [
         '(a) the queue cache (what the dispatcher can see) is the reference for "Locked with priority>0 at that moment"; API-side changes become visible only through Update() or the answer to the dispatcher\'s own call',
         '(a) a process on a not-yet-probed instance becomes known to the pool at the latest when the pool is asked to kill that container (a probe may complete at any time); without that the real code has a designed-in window covered only by fixStaleLocks, which is not part of runQueue/sync',
         '(a) API semantics of the model: lock needs Queued and priority>0, unlock needs Locked, cancel needs a non-final state; any call may also fail for no reason',
         '(a) waiting for scheduler goroutines uses the goroutine count (no sleep decides a verdict); the state space is sampled, not exhausted',
+        '(c) a restarted dispatcher is simulated by cutting off the old generation\'s commands; a second process is excused only if the first one was inherited from the previous generation on a VM that has not answered any --list of the new one for >= min(StaleLockTimeout, TimeoutBooting)',
     ],
     'units': [
         unit('sched-sm', 'scheduler_c14', '^TestVerifC14aStateMachine$',
              {'shards': 8, 'checks': 400, 'steps': 60},
-             {'shards': 16, 'checks': 4000, 'steps': 60, 'timeout': 1500}),
+             {'shards': 16, 'checks': 15000, 'steps': 60, 'timeout': 1500}),
     ],
 }
